@@ -3,7 +3,7 @@ From Coq Require Export List Bool ZArith QArith Qcanon Lia Lqa.
 Export ListNotations.
 Open Scope Qc_scope.
 
-Ltac qc2q := unfold Qcle, Qclt, Qcplus, Qcmult, Qcminus, Qcopp, Q2Qc in *;
+Ltac qc2q := unfold Qcminus in *; unfold Qcle, Qclt, Qcplus, Qcmult, Qcopp, Q2Qc in *;
              cbn [this] in *; rewrite ?Qred_correct in *.
 
 Definition Qcltb (x y : Qc) : bool := match Qccompare x y with Lt => true | _ => false end.
